@@ -8,6 +8,11 @@
 //   - handleLoop's for loop leaves with `return` when isCloseable(err) holds for
 //     the result of p.handle (loop_returns_on_closeable);
 //   - handleLoop defers conn.Close() (loop_defers_conn_close);
+//   - handleConnectRequest defers cconn.Close() (connect_defers_cconn_close);
+//   - handle(): a statement that replaces the traffic shaping context of the
+//     client connection (`x.Context = &trafficshape.Context{}` under a type
+//     assertion to *trafficshape.Conn) stands BEFORE the dispatch
+//     `if req.Method == "CONNECT"` (shaping_reset_before_connect);
 //   - connect(): which answers of the downstream proxy are taken as "tunnel
 //     established, no body": `res.StatusCode/100 == 2` (downstream_any_2xx) as
 //     opposed to a comparison with 200 / http.StatusOK.
@@ -56,9 +61,62 @@ func main() {
 			funcs[fd.Name.Name] = fd
 		}
 	}
-	hc, hl, ic, cn := funcs["handleConnectRequest"], funcs["handleLoop"], funcs["isCloseable"], funcs["connect"]
-	if hc == nil || hl == nil || ic == nil || cn == nil {
-		fail("handleConnectRequest / handleLoop / isCloseable / connect not found in proxy.go")
+	hc, hl, ic, cn, hd := funcs["handleConnectRequest"], funcs["handleLoop"], funcs["isCloseable"], funcs["connect"], funcs["handle"]
+	if hc == nil || hl == nil || ic == nil || cn == nil || hd == nil {
+		fail("handleConnectRequest / handleLoop / isCloseable / connect / handle not found in proxy.go")
+	}
+
+	// handleConnectRequest: defer cconn.Close()
+	defersCconn := false
+	for _, st := range hc.Body.List {
+		if d, ok := st.(*ast.DeferStmt); ok {
+			if sel, ok := d.Call.Fun.(*ast.SelectorExpr); ok && isIdent(sel.X, "cconn") && sel.Sel.Name == "Close" {
+				defersCconn = true
+			}
+		}
+	}
+
+	// handle(): shaping context reset before the CONNECT dispatch (top-level statements only)
+	resetBefore, sawDispatch := false, false
+	for _, st := range hd.Body.List {
+		is, ok := st.(*ast.IfStmt)
+		if !ok {
+			continue
+		}
+		if be, ok := is.Cond.(*ast.BinaryExpr); ok && be.Op == token.EQL {
+			if sel, ok := be.X.(*ast.SelectorExpr); ok && sel.Sel.Name == "Method" {
+				if lit, ok := be.Y.(*ast.BasicLit); ok && lit.Value == `"CONNECT"` {
+					sawDispatch = true
+					break
+				}
+			}
+		}
+		// if ptsconn, ok := conn.(*trafficshape.Conn); ok { ptsconn.Context = &trafficshape.Context{} }
+		as, ok := is.Init.(*ast.AssignStmt)
+		if !ok || len(as.Rhs) != 1 {
+			continue
+		}
+		ta, ok := as.Rhs[0].(*ast.TypeAssertExpr)
+		if !ok {
+			continue
+		}
+		star, ok := ta.Type.(*ast.StarExpr)
+		if !ok {
+			continue
+		}
+		if sel, ok := star.X.(*ast.SelectorExpr); !ok || !isIdent(sel.X, "trafficshape") || sel.Sel.Name != "Conn" {
+			continue
+		}
+		for _, b := range is.Body.List {
+			if a2, ok := b.(*ast.AssignStmt); ok && len(a2.Lhs) == 1 {
+				if sel, ok := a2.Lhs[0].(*ast.SelectorExpr); ok && sel.Sel.Name == "Context" {
+					resetBefore = true
+				}
+			}
+		}
+	}
+	if !sawDispatch {
+		fail("handle(): the dispatch `if req.Method == \"CONNECT\"` was not found")
 	}
 
 	// 0. connect(): the test on the downstream proxy's status
@@ -179,7 +237,9 @@ func main() {
 		"Definition errClose_is_closeable : bool := " + b(closeable) + ".\n" +
 		"Definition loop_returns_on_closeable : bool := " + b(loopRet) + ".\n" +
 		"Definition loop_defers_conn_close : bool := " + b(deferClose) + ".\n" +
-		"Definition downstream_any_2xx : bool := " + b(any2xx) + ".\n"
+		"Definition downstream_any_2xx : bool := " + b(any2xx) + ".\n" +
+		"Definition connect_defers_cconn_close : bool := " + b(defersCconn) + ".\n" +
+		"Definition shaping_reset_before_connect : bool := " + b(resetBefore) + ".\n"
 	if err := os.WriteFile(filepath.Join(*out, "Gen_Ret.v"), []byte(src), 0o644); err != nil {
 		fail("%v", err)
 	}
